@@ -152,5 +152,12 @@ func sameElements(e1 *etree.Element, e2 *etree.Element) bool {
 	}
 	id1 := getAttrValue(e1, "id")
 	id2 := getAttrValue(e2, "id")
-	return id1 == id2
+	if id1 != id2 {
+		return false
+	}
+	if id1 == "" {
+		// Elements without id are addressed by schemeIdUri if they have one
+		return getAttrValue(e1, "schemeIdUri") == getAttrValue(e2, "schemeIdUri")
+	}
+	return true
 }
